@@ -236,6 +236,66 @@ func parseVia(entry, text string, base int, prec uint32, mode uint8, chunk int, 
 	return
 }
 
+type tokViol struct {
+	class, msg string
+	Bytes      *BytesSpec
+}
+
+// multiToken checks what the scanning entry points leave behind for the next
+// reader: a token that ends at the end of the input, two tokens in one call,
+// one token for two receivers, and the position of a rune scanner after the
+// scan (compared with math/big's Float scanning the same bytes).
+func multiToken(tok string, ref0 parseOutcome, prec uint32, mode uint8, cnt map[string]int) (v *tokViol) {
+	want := strings.Replace(ref0.key(), fmt.Sprintf("base=%d ", ref0.base), "base=0 ", 1)
+	keyOfD := func(z *decimal.Decimal) string { return parseOutcome{ok: true, z: observe(z)}.key() }
+	bsFor := func(entry, text string) *BytesSpec { return &BytesSpec{Entry: "multitoken", Text: tok} }
+	defer func() {
+		if r := recover(); r != nil {
+			v = &tokViol{"scan-panic", fmt.Sprintf("scanning %q panicked: %v", tok, r), bsFor("Sscan", tok)}
+		}
+	}()
+	// (a) the token ends exactly at the end of the input
+	for _, e := range []string{"Sscan", "Fscan", "Fscan-rs"} {
+		got := parseVia(e, tok, 0, prec, mode, 0, nil, nil)
+		if got.key() != want {
+			return &tokViol{"scan-differs-from-parse", fmt.Sprintf("%s over %q (token ends at the end of the input) = %s\n  Parse(%q, 0) = %s", e, tok, got.key(), tok, want), bsFor(e, tok)}
+		}
+	}
+	// (b) two tokens, two receivers
+	{
+		a, b := newRecv(prec, mode), newRecv(prec, mode)
+		n, err := fmt.Sscan(tok+" "+tok, a, b)
+		if n != 2 || err != nil || keyOfD(a) != want || keyOfD(b) != want {
+			return &tokViol{"scan-sequence", fmt.Sprintf("Sscan(%q, &a, &b): n=%d err=%v a=%s b=%s\n  Parse(%q, 0) = %s", tok+" "+tok, n, err, keyOfD(a), keyOfD(b), tok, want), bsFor("Sscan2", tok)}
+		}
+	}
+	// (c) one token, two receivers: the second scan must find nothing
+	{
+		a, b := newRecv(prec, mode), newRecv(prec, mode)
+		n, err := fmt.Sscan(tok, a, b)
+		if n != 1 || err == nil {
+			return &tokViol{"scan-sequence", fmt.Sprintf("Sscan(%q, &a, &b) with a single token: n=%d err=%v b=%s (want n=1 and an error)", tok, n, err, keyOfD(b)), bsFor("Sscan1of2", tok)}
+		}
+	}
+	// (d) where a rune scanner stands after the scan, next to math/big
+	for _, tail := range []string{",7", " 7", "é", "e", "x"} {
+		text := tok + tail
+		sd := &simRuneScanner{data: []byte(text)}
+		nd, errd := fmt.Fscan(sd, newRecv(prec, mode))
+		sb := &simRuneScanner{data: []byte(text)}
+		nb, errb := fmt.Fscan(sb, new(big.Float))
+		if (errb == nil) != (errd == nil) || nb != nd {
+			continue // acceptance differences are the grammar check's business
+		}
+		if errb == nil && sd.off != sb.off {
+			return &tokViol{"scan-sequence", fmt.Sprintf("Fscan over a rune scanner holding %q: the Decimal scan leaves the reader at offset %d, math/big's Float at offset %d", text, sd.off, sb.off), bsFor("Fscan-rs-pos", text)}
+		}
+		cnt["scan_reader_positions_checked"]++
+	}
+	cnt["scan_sequences_checked"]++
+	return nil
+}
+
 // bigAccepts asks math/big's parser (the reference model of the grammar).
 func bigAccepts(s string, base int) (ok bool, b int, panicked bool) {
 	defer func() {
@@ -745,7 +805,7 @@ func runParse(sc *Scenario) *Outcome {
 			sentries = []string{"Sscan"}
 		}
 	}
-	if len(sentries) == 0 {
+	if len(sentries) == 0 && bs.Entry != "multitoken" {
 		return finish()
 	}
 	tok := strings.TrimSpace(text)
@@ -753,6 +813,12 @@ func runParse(sc *Scenario) *Outcome {
 	stream := text + " "
 	if single {
 		stream = text
+	}
+	if validTok && (!single || bs.Entry == "multitoken") {
+		if v := multiToken(tok, ref0, prec, mode, cnt); v != nil {
+			v.Bytes.RecvPrec, v.Bytes.RecvMode = prec, mode
+			return viol(v.class, v.msg, v.Bytes)
+		}
 	}
 	for _, e := range sentries {
 		chunks := []int{0, 1, 2, 3, 7}
